@@ -552,7 +552,7 @@ func runC11(ctx *core.Ctx) {
 	ctx.Res.Exhaustive = true
 
 	// seeded random: mostly valid, plus a malformed stream (one broken position per document)
-	for i := 0; i < ctx.Pick(12000, 400000); i++ {
+	for i := 0; i < ctx.Pick(12000, 300000); i++ {
 		malformed := i%5 == 4
 		kind := "nz-random-valid"
 		if malformed {
@@ -560,7 +560,7 @@ func runC11(ctx *core.Ctx) {
 		}
 		c11Add(ctx, "c11.normalize", kind, c11RandomDoc(ctx.Rng, malformed), c11Envs[ctx.Rng.Intn(len(c11Envs))])
 	}
-	for i := 0; i < ctx.Pick(6000, 200000); i++ {
+	for i := 0; i < ctx.Pick(6000, 150000); i++ {
 		d := m{"services": m{"a": c11SDService(ctx.Rng, i%2 == 0), "b": c11SDService(ctx.Rng, false)}}
 		kind := "sd-random-valid"
 		if i%6 == 5 {
